@@ -392,7 +392,22 @@ var (
 	c07FF64, _  = errdef.DefineField[float64]("f")
 	c07FStr, _  = errdef.DefineField[string]("s")
 	c07FMap, _  = errdef.DefineField[map[string]any]("m")
+	// typed nil pointers whose element types carry VALUE-receiver marshal methods: encoding/json
+	// writes null for them; calling the method through the nil pointer would panic
+	c07FNilTime, _  = errdef.DefineField[*time.Time]("t")
+	c07FNilMarsh, _ = errdef.DefineField[*c07ValMarshaler]("vm")
+	c07FNilText, _  = errdef.DefineField[*c07ValTexter]("vt")
+	c07FNilAny, _   = errdef.DefineField[any]("na")
 )
+
+type c07ValMarshaler struct{ N int }
+
+func (v c07ValMarshaler) MarshalJSON() ([]byte, error) { return []byte(strconv.Itoa(v.N)), nil }
+
+type c07ValTexter struct{ S string }
+
+func (v c07ValTexter) MarshalText() ([]byte, error) { return []byte(v.S), nil }
+func (v c07ValTexter) String() string                { return v.S }
 
 func c07FieldOpt(f string) errdef.Option {
 	switch f {
@@ -402,6 +417,14 @@ func c07FieldOpt(f string) errdef.Option {
 		return c07FStr("alpha\nbeta\n\ngamma")
 	case "huge":
 		return c07FStr(strings.Repeat("0123456789abcdef", 1<<14)) // 256 KiB
+	case "niltime":
+		return c07FNilTime(nil)
+	case "nilmarsh":
+		return c07FNilMarsh(nil)
+	case "niltext":
+		return c07FNilText(nil)
+	case "nilany":
+		return c07FNilAny((*c07ValMarshaler)(nil))
 	case "chan":
 		return c07FChan(make(chan int))
 	case "func":
@@ -1025,7 +1048,7 @@ func c07Exhaustive(emit func(c07Item)) {
 }
 
 var c07Kinds = []string{"ps", "ps", "ps", "pm", "pm", "pm", "pm", "vs", "vs", "vm", "vm", "mm", "ew", "ew", "ej", "ej", "en", "rs"}
-var c07FineFields = []string{"", "", "", "", "plain", "multiline", "huge"}
+var c07FineFields = []string{"", "", "", "", "plain", "multiline", "huge", "niltime", "nilmarsh", "niltext", "nilany"}
 
 // a random graph of n inner nodes of mixed kinds plus an errdef receiver (node n)
 func c07Random(r *Rng, n int, badFields bool) c07Item {
@@ -1183,6 +1206,11 @@ func c07Fixed() []c07Item {
 		mk("cyclic-field-value", 0, c07Node{Kind: "en", Field: "selfmap"}),
 		mk("cyclic-field-value", 2, c07Node{Kind: "ps", Causes: []int{1}}, c07Node{Kind: "en", Field: "selfmap"}, c07Node{Kind: "ew", Causes: []int{0}}),
 		mk("cyclic-field-value", 1, c07Node{Kind: "pm"}, c07Node{Kind: "ej", Causes: []int{0, 0}, Field: "selfmap", Trace: true}),
+		// typed nil pointers to types with value-receiver marshal methods
+		mk("field-values", 0, c07Node{Kind: "en", Field: "niltime"}),
+		mk("field-values", 0, c07Node{Kind: "en", Field: "nilmarsh", Trace: true}),
+		mk("field-values", 1, c07Node{Kind: "ps"}, c07Node{Kind: "ew", Causes: []int{0}, Field: "niltext"}),
+		mk("field-values", 2, c07Node{Kind: "pm", Causes: []int{1}}, c07Node{Kind: "en", Field: "nilany"}, c07Node{Kind: "ew", Causes: []int{0}, Field: "nilmarsh"}),
 		// field values json cannot encode / awkward to print
 		mk("field-values", 0, c07Node{Kind: "en", Field: "chan"}),
 		mk("field-values", 0, c07Node{Kind: "en", Field: "func", Trace: true}),
